@@ -46,6 +46,11 @@ func (p propSpec) Deadline(tier int) time.Duration { return p.DeadlineT[tier] }
 const techSX = "symbolic execution of the real code's go/ssa (GoSX) with SMT (z3) deciding every branch and assertion over all values of the symbolic inputs within the stated bounds; counterexamples replayed natively"
 
 var properties = map[string]propSpec{
+	"C01": {
+		Level: "model_checking", Technique: techSX + "; differential against a reference interpreter (refEval) over an explicit model tree built from the same symbolic leaves",
+		Bounds:  [2]string{"datum {x: V, y: scalar}: V over 21 shapes (10 scalar kinds incl. named, pointer, nil pointer, json.Number, nil; []interface{} of 0..2 scalars, []int8, [2]string, map[string]interface{} over 2 keys, map[string]int8, tagged struct (renamed/hidden/unexported/untagged fields, behind a pointer or not), []*int8 with nil, []byte, named-string-keyed map, list of maps, []struct), leaves symbolic; quick: a seed-selected sixth of the (shape, operator) pairs; 15 selector forms x 8 operators x 6 literals (quick: 8 x 8 x 3), with and without an unknown value; 13 composite templates (connectives, quantifiers in all binding modes, nested, aliases, JSON pointers); three Go representations of one document", "all 21 shapes"},
+		Outside: "what refEval calls unspecified (assumed away): non-canonical list indices, NaN; datum shapes beyond the 21; more than one container level below x; map key types other than string / named string",
+	},
 	"C20": {
 		Level: "translation_validation", Technique: "translation validation of grammar.peg vs the compiled table: (1) the table is obtained by executing the real package init in GoSX and walked in lock-step with an independent reading of grammar.peg (structure, order, labels, operators, positions); (2) every literal / class / any matcher is run by the real engine on symbolic input and z3 decides, for all runes, agreement with the grammar text; (3) every action and predicate is executed through its callon wrapper on symbolic label values / matched text and z3 decides equality with the grammar's own code block compiled from grammar.peg",
 		Bounds:  [2]string{"all 37 rules, all nodes (complete walk); matchers: input of every byte string <= 4 bytes (<= literal length for literals), i.e. every rune incl. ill-formed UTF-8 and EOF; code blocks: all 50, label values symbolic within the sample family (strings <= 2 bytes, selectors, operators, 4 expression shapes, segment lists), matched text <= 3 symbolic bytes or a quoted template", "same"},
